@@ -15,6 +15,7 @@ import (
 type RtpUnpackerAac struct {
 	payloadType base.AvPacketPt
 	clockRate   int
+	tsExtender  rtpTimestampExtender
 	onAvPacket  OnAvPacket
 }
 
@@ -77,7 +78,7 @@ func (unpacker *RtpUnpackerAac) TryUnpackOne(list *RtpPacketList) (unpackedFlag 
 			// one complete access unit
 			var outPkt base.AvPacket
 			outPkt.PayloadType = unpacker.payloadType
-			outPkt.Timestamp = rtpTimestamp2Ms(p.Packet.Header.Timestamp, unpacker.clockRate)
+			outPkt.Timestamp = unpacker.tsExtender.toMs(p.Packet.Header.Timestamp, unpacker.clockRate)
 			outPkt.Payload = b[aus[0].pos : aus[0].pos+aus[0].size]
 			unpacker.onAvPacket(outPkt)
 
@@ -134,7 +135,7 @@ func (unpacker *RtpUnpackerAac) TryUnpackOne(list *RtpPacketList) (unpackedFlag 
 			} else if cacheSize == totalSize {
 				var outPkt base.AvPacket
 				outPkt.PayloadType = unpacker.payloadType
-				outPkt.Timestamp = rtpTimestamp2Ms(p.Packet.Header.Timestamp, unpacker.clockRate)
+				outPkt.Timestamp = unpacker.tsExtender.toMs(p.Packet.Header.Timestamp, unpacker.clockRate)
 				for _, a := range as {
 					outPkt.Payload = append(outPkt.Payload, a...)
 				}
@@ -157,7 +158,7 @@ func (unpacker *RtpUnpackerAac) TryUnpackOne(list *RtpPacketList) (unpackedFlag 
 		var outPkt base.AvPacket
 		outPkt.PayloadType = unpacker.payloadType
 		// 一个rtp包中的多个AU，每个AU间隔1024个采样点。注意，先在rtp时间戳上累加再转换成毫秒，避免每个AU都引入取整误差
-		outPkt.Timestamp = rtpTimestamp2Ms(p.Packet.Header.Timestamp+uint32(i*1024), unpacker.clockRate)
+		outPkt.Timestamp = unpacker.tsExtender.toMs(p.Packet.Header.Timestamp+uint32(i*1024), unpacker.clockRate)
 		if aus[i].pos+aus[i].size > uint32(len(b)) {
 			Log.Warnf("au size bigger than rtp packet. pos=%d, size=%d, len(b)=%d", aus[i].pos, aus[i].size, len(b))
 			break
